@@ -33,6 +33,15 @@ package webtransport
 //@   modifies c.readRemaining, c.readLength, c.br.$pos, c.br.$buffered, Mem(c.br.$peek)
 //@   let p0 = old(c.br.$pos) + old(c.readRemaining)
 //@   let b0 = uf_u8_in(c.br, p0)
+//@   let in_b0 = uf_u8_in(c.br, c.br.$pos + c.readRemaining)
+//@   let in_b1 = uf_u8_in(c.br, c.br.$pos + c.readRemaining + 1)
+//@   let in_b2 = uf_u8_in(c.br, c.br.$pos + c.readRemaining + 2)
+//@   let in_b3 = uf_u8_in(c.br, c.br.$pos + c.readRemaining + 3)
+//@   let in_b4 = uf_u8_in(c.br, c.br.$pos + c.readRemaining + 4)
+//@   let in_b5 = uf_u8_in(c.br, c.br.$pos + c.readRemaining + 5)
+//@   let in_b6 = uf_u8_in(c.br, c.br.$pos + c.readRemaining + 6)
+//@   let in_b7 = uf_u8_in(c.br, c.br.$pos + c.readRemaining + 7)
+//@   let in_b8 = uf_u8_in(c.br, c.br.$pos + c.readRemaining + 8)
 //@   let n7 = int64(b0 & 0x7f)
 //@   let L  = n7 == 126 ? int64(in16(c.br, p0+1)) : (n7 == 127 ? int64(in64(c.br, p0+1)) : n7)
 //@   ensures [C14.dec.kind,C13.readkind]  result1 == nil ==> result0 == int((b0 & 0x80) >> 7) + 1
